@@ -211,6 +211,8 @@ class Run:
         return 0
 
     def _write_replay(self, o: Ob):
+        if os.environ.get("UXSA_NO_REPLAY"):
+            return os.path.join(VERIF, "replay", o.prop, _slug(f"{o.rule}__{o.construct}") + ".json")
         d = os.path.join(VERIF, "replay", o.prop)
         os.makedirs(d, exist_ok=True)
         path = os.path.join(d, _slug(f"{o.rule}__{o.construct}") + ".json")
